@@ -216,3 +216,10 @@ def run_chunk(spec, ctx):
 
     ru = resource.getrusage(resource.RUSAGE_CHILDREN)
     ctx.count("cpu_s_children", round(ru.ru_utime + ru.ru_stime, 1))
+
+
+def replay(w, ctx):
+    from vlib import sut_corpus
+
+    proj = sut_corpus.copy_to(ctx.scratch / "proj", SUTS)
+    run_one(ctx, w["case"]["run"], 0, proj)
